@@ -273,12 +273,18 @@ def _m_seq(items, i, s, pos, end, st, k):
             yield from _m_seq(items, i + 1, s, pos + 1, end, st, k)
         else:
             cur = st.cons.get(pos)
-            if cur is None:
-                cur = _DOM.get(c.get_id())
             nm = node.a if cur is None else cur.inter(node.a)
             if not nm:
                 return
-            if cur is not None and nm == cur and pos in st.cons:
+            d = _DOM.get(c.get_id())
+            if d is not None:
+                if not _meets(d, nm):
+                    return
+                if cur is None and _within(d, nm):
+                    # implied by what is already known about this character: no new constraint
+                    yield from _m_seq(items, i + 1, s, pos + 1, end, st, k)
+                    return
+            if cur is not None and nm == cur:
                 yield from _m_seq(items, i + 1, s, pos + 1, end, st, k)
             else:
                 nc = dict(st.cons)
@@ -355,14 +361,49 @@ def _require(s, pos, mask, st, k):
             yield from k(st)
         return
     cur = st.cons.get(pos)
-    if cur is None:
-        cur = _DOM.get(c.get_id())
     nm = mask if cur is None else cur.inter(mask)
     if not nm:
         return
+    d = _DOM.get(c.get_id())
+    if d is not None:
+        if not _meets(d, nm):
+            return
+        if cur is None and _within(d, nm):
+            yield from k(st)
+            return
     nc = dict(st.cons)
     nc[pos] = nm
     yield from k(_St(nc, st.groups))
+
+
+_MEET = {}
+
+
+def _meets(a, b):
+    """a ∩ b non-empty (memoised)"""
+    key = (a, b)
+    r = _MEET.get(key)
+    if r is None:
+        r = bool(a.inter(b))
+        if len(_MEET) > 100000:
+            _MEET.clear()
+        _MEET[key] = r
+    return r
+
+
+_WITHIN = {}
+
+
+def _within(a, b):
+    """a ⊆ b (memoised)"""
+    key = (a, b)
+    r = _WITHIN.get(key)
+    if r is None:
+        r = a.issubset(b)
+        if len(_WITHIN) > 100000:
+            _WITHIN.clear()
+        _WITHIN[key] = r
+    return r
 
 
 def _subsumed(cons, earlier):
@@ -371,7 +412,7 @@ def _subsumed(cons, earlier):
         cm = cons.get(p)
         if cm is None:
             return False
-        if not cm.issubset(m):
+        if cm is not m and not _within(cm, m):
             return False
     return True
 
@@ -410,15 +451,17 @@ def _decision_list(cands, s):
     this signature'"""
     order = []
     forms = {}
-    negs = []
+    prefix = None      # conjunction of Not(cond) of all earlier candidates (nested, linear size)
     for sig, cons in cands:
         if cons:
-            cond = z3.And(*[m.formula(s[p]) for p, m in sorted(cons.items())]) \
-                if len(cons) > 1 else next(iter(cons.values())).formula(s[next(iter(cons))])
-            first = z3.And(cond, *negs) if negs else cond
-            negs.append(z3.Not(cond))
+            items = sorted(cons.items())
+            cond = z3.And(*[m.formula(s[p]) for p, m in items]) if len(items) > 1 \
+                else items[0][1].formula(s[items[0][0]])
+            first = cond if prefix is None else z3.And(prefix, cond)
+            ncond = z3.Not(cond)
+            prefix = ncond if prefix is None else z3.And(prefix, ncond)
         else:
-            first = z3.And(*negs) if negs else z3.BoolVal(True)
+            first = prefix if prefix is not None else z3.BoolVal(True)
         if sig not in forms:
             forms[sig] = []
             order.append(sig)
